@@ -21,6 +21,8 @@ func main() {
 type c09gen struct {
 	env *Env
 	vm  *otto.Otto
+	cur *otto.Otto // runtime in which the expressions built by strExpr will be evaluated (for vm.Set)
+	gs  int
 }
 
 // ---------- strings ----------
@@ -38,6 +40,9 @@ var (
 // flavour: 0 ascii, 1 latin1, 2 bmp, 3 astral, 4 with lone surrogates
 func (g *c09gen) units(flavour, maxLen int) []uint16 {
 	r := g.env.Rng
+	if maxLen >= 5 && r.Intn(3) == 0 {
+		return g.longUnits(flavour)
+	}
 	n := r.Intn(maxLen + 1)
 	if r.Intn(12) == 0 {
 		n = 0
@@ -58,6 +63,67 @@ func (g *c09gen) units(flavour, maxLen int) []uint16 {
 		default:
 			u = append(u, Pick(r, alphaASCII))
 		}
+	}
+	return u
+}
+
+// one "special" (non-ASCII) character of the flavour, as units
+func (g *c09gen) special(flavour int) []uint16 {
+	r := g.env.Rng
+	switch k := r.Intn(10); {
+	case flavour >= 4 && k == 0:
+		return []uint16{Pick(r, loneUnits)}
+	case flavour >= 3 && k <= 4:
+		a, b := utf16.EncodeRune(Pick(r, astralRunes))
+		return []uint16{uint16(a), uint16(b)}
+	case flavour >= 2 && k <= 7:
+		return []uint16{Pick(r, alphaBMP)}
+	default:
+		return []uint16{Pick(r, alphaLatin1)}
+	}
+}
+
+func (g *c09gen) asciiRun(n int) []uint16 {
+	u := make([]uint16, n)
+	for i := range u {
+		u[i] = Pick(g.env.Rng, []uint16{'a', 'b', 'c', 'a', 'b', 'x', 'y', 'z', '0', ',', ' '})
+	}
+	return u
+}
+
+// strings of 0..40 units whose non-ASCII characters sit at chosen position classes: first, last,
+// only after an ASCII prefix of 8k-1 / 8k / 8k+1 bytes followed by a tail of 0..6 ASCII bytes, or spread
+func (g *c09gen) longUnits(flavour int) []uint16 {
+	r := g.env.Rng
+	p := Pick(r, []int{0, 1, 2, 3, 5, 6, 7, 8, 9, 10, 14, 15, 16, 17, 18, 22, 23, 24, 25, 26, 30, 31, 32, 33, 34})
+	if r.Intn(4) == 0 {
+		p = r.Intn(35)
+	}
+	t := r.Intn(7)
+	if flavour == 0 {
+		return g.asciiRun(p + t)
+	}
+	sp := g.special(flavour)
+	if r.Intn(3) == 0 {
+		sp = append(sp, g.special(flavour)...)
+	}
+	var u []uint16
+	switch r.Intn(8) {
+	case 0: // first
+		u = append(append(u, sp...), g.asciiRun(p+t)...)
+	case 1: // first and last
+		u = append(append(append(u, g.special(flavour)...), g.asciiRun(p)...), sp...)
+	case 2: // spread
+		u = g.asciiRun(p + t)
+		for k := 1 + r.Intn(3); k > 0; k-- {
+			i := r.Intn(len(u) + 1)
+			if i > 0 && i < len(u) && u[i] >= 0xDC00 && u[i] < 0xE000 {
+				i--
+			}
+			u = append(u[:i:i], append(g.special(flavour), u[i:]...)...)
+		}
+	default: // only after the ASCII prefix, then a short ASCII tail
+		u = append(append(g.asciiRun(p), sp...), g.asciiRun(t)...)
 	}
 	return u
 }
@@ -115,11 +181,21 @@ func flavourOf(u []uint16) string {
 // a JS expression whose value is the string with exactly these units
 func (g *c09gen) strExpr(u []uint16) string {
 	r := g.env.Rng
-	form := r.Intn(4)
+	form := r.Intn(6)
 	if !wellFormed(u) {
 		form = 0
 	}
 	switch form {
+	case 4: // ToString of an object
+		return "String({toString:function(){return " + g.rawLit(u) + "}})"
+	case 5: // a Go string handed over with Otto.Set
+		if g.cur == nil {
+			g.cur = g.vm
+		}
+		g.gs = (g.gs + 1) % 64
+		name := fmt.Sprintf("__gs%d", g.gs)
+		Must(g.cur.Set(name, string(utf16.Decode(u))))
+		return name + "/*Go string " + g.rawLit(u) + " via Otto.Set*/"
 	case 0: // String.fromCharCode(...): a []uint16 value inside otto
 		if len(u) == 0 {
 			return `""`
@@ -236,6 +312,12 @@ func lensOf(us ...[]uint16) []int {
 	for _, u := range us {
 		s := string(utf16.Decode(u))
 		out = append(out, len(u), len(s), utf8.RuneCountInString(s))
+		for i, c := range u {
+			if c >= 0x80 { // where the first non-ASCII character sits, and the multiple of 8 below it
+				out = append(out, i, i+1, i/8*8)
+				break
+			}
+		}
 	}
 	return out
 }
@@ -384,7 +466,7 @@ var methods = []methSpec{
 	{"MCharAt", "charAt", 8}, {"MCharCodeAt", "charCodeAt", 8}, {"MIndexOf", "indexOf", 14},
 	{"MLastIndexOf", "lastIndexOf", 14}, {"MSlice", "slice", 10}, {"MSubstring", "substring", 9},
 	{"MSubstr", "substr", 10}, {"MSplit", "split", 10}, {"MConcat", "concat", 4}, {"MTrim", "trim", 5},
-	{"MToLower", "toLowerCase", 3}, {"MToUpper", "toUpperCase", 3},
+	{"MToLower", "toLowerCase", 3}, {"MToUpper", "toUpperCase", 3}, {"MLocaleCompare", "localeCompare", 7},
 }
 
 func (g *c09gen) pickMethod() methSpec {
@@ -448,12 +530,35 @@ func (g *c09gen) callArgs(m methSpec, u []uint16, fl int) []jarg {
 				args = append(args, numArg(Pick(r, lim)))
 			}
 		}
+	case "MLocaleCompare":
+		switch k := r.Intn(12); {
+		case k == 0: // omitted: compared with "undefined"
+		case k < 4: // a non-string argument goes through ToString
+			args = append(args, Pick(r, []jarg{argUndef, argNull, argTrue, argFalse, numArg(10), numArg(9), numArg(1), numArg(0), numArg(-3), numArg(math.NaN()), numArg(math.Inf(1)), numArg(123)}))
+		case k < 6:
+			args = append(args, strArg(g, append([]uint16{}, u...)))
+		case k < 8:
+			args = append(args, strArg(g, append(append([]uint16{}, u...), g.units(fl, 2)...)))
+		case k < 10 && len(u) > 0:
+			v := append([]uint16{}, u...)
+			i := r.Intn(len(v))
+			if v[i] < 0xD800 || v[i] >= 0xE000 {
+				v[i] = Pick(r, []uint16{'a', 'b', '0', 0xE9, 0xFFFF, 0xE000, 0xD7FF, 0x7F, 0x80})
+			}
+			args = append(args, strArg(g, v))
+		default:
+			args = append(args, strArg(g, g.units(fl, 5)))
+		}
 	case "MConcat":
 		for k := r.Intn(4); k > 0; k-- {
 			if r.Intn(4) == 0 {
 				args = append(args, Pick(r, []jarg{argUndef, argNull, argTrue, argFalse, numArg(12), numArg(-3), numArg(math.NaN()), numArg(0), numArg(math.Inf(-1))}))
 			} else {
-				args = append(args, strArg(g, g.units(fl, 3)))
+				afl := fl
+				if r.Intn(2) == 0 {
+					afl = g.flavour()
+				}
+				args = append(args, strArg(g, g.units(afl, 3)))
 			}
 		}
 	}
@@ -502,6 +607,9 @@ func (g *c09gen) receiverUnits(m methSpec) ([]uint16, int) {
 			}
 			return u, 2
 		}
+	}
+	if m.coq == "MLocaleCompare" && r.Intn(4) == 0 {
+		return Units(Pick(r, []string{"10", "9", "1e1", "1", "undefined", "null", "true", "NaN", "b", "", "123", "Infinity", "-3"})), 0
 	}
 	return g.units(fl, 7), fl
 }
@@ -638,6 +746,8 @@ func (g *c09gen) chain() {
 		u = append(u, g.units(fl, 4)...)
 	}
 	vm := otto.New()
+	g.cur = vm
+	defer func() { g.cur = g.vm }()
 	init := "var s = " + g.strExpr(u) + ";"
 	if o := RunJS(vm, init); o.Err != nil || o.Panic != nil {
 		panic(fmt.Sprintf("c09: cannot set up chain: %s: %v %v", init, o.Err, o.Panic))
@@ -741,6 +851,8 @@ func logOf(vm *otto.Otto) string {
 func (g *c09gen) effectHistory() {
 	r := g.env.Rng
 	vm := otto.New()
+	g.cur = vm
+	defer func() { g.cur = g.vm }()
 	if o := RunJS(vm, effectPrelude); o.Err != nil || o.Panic != nil {
 		panic(fmt.Sprintf("c09: effect prelude: %v %v", o.Err, o.Panic))
 	}
@@ -870,6 +982,8 @@ func (g *c09gen) pinnedEffect(stepCoq, src string) {
 func (g *c09gen) patched() {
 	r := g.env.Rng
 	vm := otto.New()
+	g.cur = vm
+	defer func() { g.cur = g.vm }()
 	x := g.units(r.Intn(3), 5)
 	m := g.pickMethod()
 	fl := g.flavour()
@@ -894,7 +1008,7 @@ func (g *c09gen) patched() {
 
 func runC09(env *Env) {
 	env.Import = "Otto.C09.Corr"
-	env.Rule = "receiver strings of 0-8 code points over ASCII / Latin-1 / BMP (2- and 3-byte UTF-8, U+FFFD, whitespace set) / astral pairs / lone surrogates, written as literals, escapes, concatenations or String.fromCharCode; position arguments around 0 and the byte, rune and unit lengths of receiver and needle, negative, fractional, NaN, +-Infinity, -0, undefined/null/boolean, omitted, 2^31, 2^32, 2^53, 2^63 neighbourhood, 1e19; receivers string / String object / .call on string, number, boolean, object with toString, undefined, null; histories of 2-5 calls on one variable; histories of 2-5 calls on one runtime whose receiver and arguments are objects with logging, throwing (caught by the script or not) and re-entrant toString/valueOf, compared on result and conversion log; calls under a replaced String.prototype.toString; every generated case counts as non-trivial when distinct"
+	env.Rule = "receiver strings of 0-8 code points, and of 0-40 units with the non-ASCII characters first / last / spread / only after an ASCII prefix of 8k-1, 8k, 8k+1 bytes with a 0-6 byte ASCII tail, over ASCII / Latin-1 / BMP (2- and 3-byte UTF-8, U+FFFD, whitespace set) / astral pairs / lone surrogates, written as literals, escapes, concatenations, String.fromCharCode, String(object) or Go strings handed over with Otto.Set; position arguments around 0 and the byte, rune and unit lengths of receiver and needle, negative, fractional, NaN, +-Infinity, -0, undefined/null/boolean, omitted, 2^31, 2^32, 2^53, 2^63 neighbourhood, 1e19; receivers string / String object / .call on string, number, boolean, object with toString, undefined, null; histories of 2-5 calls on one variable; histories of 2-5 calls on one runtime whose receiver and arguments are objects with logging, throwing (caught by the script or not) and re-entrant toString/valueOf, compared on result and conversion log; calls under a replaced String.prototype.toString; every generated case counts as non-trivial when distinct"
 	g := &c09gen{env: env, vm: otto.New()}
 	r := env.Rng
 
@@ -912,6 +1026,10 @@ func runC09(env *Env) {
 	g.pinnedCall("MIndex", "RLit [97;98;99]", "[AStr [48;49]]", `"abc"["01"]`)
 	g.pinnedCall("MSlice", "RLit [97;55296;56320;98]", "[ANum "+Cdouble(1)+"; ANum "+Cdouble(2)+"]", "'a\U00010000b'.slice(1,2)")
 	g.pinnedCall("MSplit", "RLit [97;55296;56320;98]", "[AStr []]", "'a\U00010000b'.split('')")
+	// representation boundary: non-ASCII only after an ASCII prefix of exactly 8 bytes
+	g.pinnedCall("MLength", "RLit [97;98;99;100;101;102;103;104;233]", "[]", `"abcdefgh\u00e9".length`)
+	g.pinnedCall("MCharCodeAt", "RLit [97;98;99;100;101;102;103;104;233]", "[ANum "+Cdouble(8)+"]", "'abcdefgh\u00e9'.charCodeAt(8)")
+	g.pinnedCall("MIndex", "RStrObj [97;98;99;100;101;102;103;104;233;122]", "[AStr [57]]", "new String('abcdefgh\u00e9z')[9]")
 	g.pinnedEffect("(Some MSplit, ERLit [97;44;98], [EObj 1 [44] 0 false false; EPlain (ANum 0)])", `"a,b".split(E(1,",",0,false,false,null), 0)`)
 	g.pinnedEffect("(Some MLastIndexOf, ERLit [], [EPlain (AStr [99]); EObj 2 [120] "+Cdouble(3)+" false false])", `"".lastIndexOf("c", E(2,"x",3,false,false,null))`)
 	{
